@@ -68,27 +68,112 @@ mod c19 {
     // @prop C19
     // @tier quick
     // @features sound
-    // @timeout 900
+    // @timeout 600
     // @fn ZXMixer::process; ZXMixer::gen_sample; ZXMixer::samples_per_frame; ZXMixer::sample_count_for_frame_fraction; ZXBeeper::gen_sample; SoundSample::mul_eq; SoundSample::into_f32; ZXMixer::volume
-    // @sym sample rate from {50, 149, 200} Hz (samples/frame 1, 2, 4; literals), master volume in [0, 1.275] (= sound_volume 0..255 / 200), beeper on/off, speaker and MIC levels, (rate, queue length, cursor) from 7 literal cases incl. drained start, mid-frame, full queue, worst-case undrained queue, partially drained host; frame fraction any f64 in [0,4]
+    // @sym sample rate from {50, 149, 200} Hz (samples/frame 1, 2, 4; literals), master volume in [0, 1.275] (= sound_volume 0..255 / 200), beeper on/off, speaker and MIC levels, case 1 of 7: sample rate 50 Hz (1 samples/frame), 0 samples queued, cursor 0 (first sample of a 1-sample frame); frame fraction any f64 in [0,4]
     // @assert one mixer step: if the queue already holds a frame's worth nothing is added; otherwise exactly max(0, pos - last_pos) samples are queued and the cursor moves to pos; every queued sample is (left == right) volume*(0.5*speaker + 0.1*MIC) (0 with the beeper disabled), finite, >= 0 and <= 0.6*volume; the queue never reaches two frames' worth (invariant len <= 2*spf-1 preserved); a drained frame keeps len == cursor
     // @bound samples/frame <= 4 so the push loop unrolls (unwind 9); real rates are covered by the c19_cursor_* arithmetic queries
     // @outside rates >= 8000 in this step harness; AY contribution (float DSP)
     #[kani::proof]
     #[kani::unwind(9)]
-    fn c19_mixer_step() {
-        // (rate, queue length, cursor) literal per case: the VecDeque then has a concrete shape
-        let sel: u8 = kani::any();
-        kani::assume(sel < 7);
-        match sel {
-            0 => mixer_step_case(50, 0, 0),
-            1 => mixer_step_case(200, 0, 0),
-            2 => mixer_step_case(200, 3, 3),
-            3 => mixer_step_case(200, 4, 1),
-            4 => mixer_step_case(200, 7, 0),
-            5 => mixer_step_case(149, 1, 0),
-            _ => mixer_step_case(149, 3, 2),
-        }
+    fn c19_mixer_step_1() {
+        mixer_step_case(50, 0, 0);
+    }
+
+    // @harness
+    // @prop C19
+    // @tier quick
+    // @features sound
+    // @timeout 600
+    // @fn ZXMixer::process; ZXMixer::gen_sample; ZXMixer::samples_per_frame; ZXMixer::sample_count_for_frame_fraction; ZXBeeper::gen_sample; SoundSample::mul_eq; SoundSample::into_f32; ZXMixer::volume
+    // @sym sample rate from {50, 149, 200} Hz (samples/frame 1, 2, 4; literals), master volume in [0, 1.275] (= sound_volume 0..255 / 200), beeper on/off, speaker and MIC levels, case 2 of 7: sample rate 200 Hz (4 samples/frame), 0 samples queued, cursor 0 (drained frame start); frame fraction any f64 in [0,4]
+    // @assert one mixer step: if the queue already holds a frame's worth nothing is added; otherwise exactly max(0, pos - last_pos) samples are queued and the cursor moves to pos; every queued sample is (left == right) volume*(0.5*speaker + 0.1*MIC) (0 with the beeper disabled), finite, >= 0 and <= 0.6*volume; the queue never reaches two frames' worth (invariant len <= 2*spf-1 preserved); a drained frame keeps len == cursor
+    // @bound samples/frame <= 4 so the push loop unrolls (unwind 9); real rates are covered by the c19_cursor_* arithmetic queries
+    // @outside rates >= 8000 in this step harness; AY contribution (float DSP)
+    #[kani::proof]
+    #[kani::unwind(9)]
+    fn c19_mixer_step_2() {
+        mixer_step_case(200, 0, 0);
+    }
+
+    // @harness
+    // @prop C19
+    // @tier quick
+    // @features sound
+    // @timeout 600
+    // @fn ZXMixer::process; ZXMixer::gen_sample; ZXMixer::samples_per_frame; ZXMixer::sample_count_for_frame_fraction; ZXBeeper::gen_sample; SoundSample::mul_eq; SoundSample::into_f32; ZXMixer::volume
+    // @sym sample rate from {50, 149, 200} Hz (samples/frame 1, 2, 4; literals), master volume in [0, 1.275] (= sound_volume 0..255 / 200), beeper on/off, speaker and MIC levels, case 3 of 7: sample rate 200 Hz (4 samples/frame), 3 samples queued, cursor 3 (drained frame, last sample); frame fraction any f64 in [0,4]
+    // @assert one mixer step: if the queue already holds a frame's worth nothing is added; otherwise exactly max(0, pos - last_pos) samples are queued and the cursor moves to pos; every queued sample is (left == right) volume*(0.5*speaker + 0.1*MIC) (0 with the beeper disabled), finite, >= 0 and <= 0.6*volume; the queue never reaches two frames' worth (invariant len <= 2*spf-1 preserved); a drained frame keeps len == cursor
+    // @bound samples/frame <= 4 so the push loop unrolls (unwind 9); real rates are covered by the c19_cursor_* arithmetic queries
+    // @outside rates >= 8000 in this step harness; AY contribution (float DSP)
+    #[kani::proof]
+    #[kani::unwind(9)]
+    fn c19_mixer_step_3() {
+        mixer_step_case(200, 3, 3);
+    }
+
+    // @harness
+    // @prop C19
+    // @tier quick
+    // @features sound
+    // @timeout 600
+    // @fn ZXMixer::process; ZXMixer::gen_sample; ZXMixer::samples_per_frame; ZXMixer::sample_count_for_frame_fraction; ZXBeeper::gen_sample; SoundSample::mul_eq; SoundSample::into_f32; ZXMixer::volume
+    // @sym sample rate from {50, 149, 200} Hz (samples/frame 1, 2, 4; literals), master volume in [0, 1.275] (= sound_volume 0..255 / 200), beeper on/off, speaker and MIC levels, case 4 of 7: sample rate 200 Hz (4 samples/frame), 4 samples queued, cursor 1 (full queue: nothing may be added); frame fraction any f64 in [0,4]
+    // @assert one mixer step: if the queue already holds a frame's worth nothing is added; otherwise exactly max(0, pos - last_pos) samples are queued and the cursor moves to pos; every queued sample is (left == right) volume*(0.5*speaker + 0.1*MIC) (0 with the beeper disabled), finite, >= 0 and <= 0.6*volume; the queue never reaches two frames' worth (invariant len <= 2*spf-1 preserved); a drained frame keeps len == cursor
+    // @bound samples/frame <= 4 so the push loop unrolls (unwind 9); real rates are covered by the c19_cursor_* arithmetic queries
+    // @outside rates >= 8000 in this step harness; AY contribution (float DSP)
+    #[kani::proof]
+    #[kani::unwind(9)]
+    fn c19_mixer_step_4() {
+        mixer_step_case(200, 4, 1);
+    }
+
+    // @harness
+    // @prop C19
+    // @tier quick
+    // @features sound
+    // @timeout 600
+    // @fn ZXMixer::process; ZXMixer::gen_sample; ZXMixer::samples_per_frame; ZXMixer::sample_count_for_frame_fraction; ZXBeeper::gen_sample; SoundSample::mul_eq; SoundSample::into_f32; ZXMixer::volume
+    // @sym sample rate from {50, 149, 200} Hz (samples/frame 1, 2, 4; literals), master volume in [0, 1.275] (= sound_volume 0..255 / 200), beeper on/off, speaker and MIC levels, case 5 of 7: sample rate 200 Hz (4 samples/frame), 7 samples queued, cursor 0 (worst-case undrained queue); frame fraction any f64 in [0,4]
+    // @assert one mixer step: if the queue already holds a frame's worth nothing is added; otherwise exactly max(0, pos - last_pos) samples are queued and the cursor moves to pos; every queued sample is (left == right) volume*(0.5*speaker + 0.1*MIC) (0 with the beeper disabled), finite, >= 0 and <= 0.6*volume; the queue never reaches two frames' worth (invariant len <= 2*spf-1 preserved); a drained frame keeps len == cursor
+    // @bound samples/frame <= 4 so the push loop unrolls (unwind 9); real rates are covered by the c19_cursor_* arithmetic queries
+    // @outside rates >= 8000 in this step harness; AY contribution (float DSP)
+    #[kani::proof]
+    #[kani::unwind(9)]
+    fn c19_mixer_step_5() {
+        mixer_step_case(200, 7, 0);
+    }
+
+    // @harness
+    // @prop C19
+    // @tier quick
+    // @features sound
+    // @timeout 600
+    // @fn ZXMixer::process; ZXMixer::gen_sample; ZXMixer::samples_per_frame; ZXMixer::sample_count_for_frame_fraction; ZXBeeper::gen_sample; SoundSample::mul_eq; SoundSample::into_f32; ZXMixer::volume
+    // @sym sample rate from {50, 149, 200} Hz (samples/frame 1, 2, 4; literals), master volume in [0, 1.275] (= sound_volume 0..255 / 200), beeper on/off, speaker and MIC levels, case 6 of 7: sample rate 149 Hz (2 samples/frame), 1 samples queued, cursor 0 (partially drained host); frame fraction any f64 in [0,4]
+    // @assert one mixer step: if the queue already holds a frame's worth nothing is added; otherwise exactly max(0, pos - last_pos) samples are queued and the cursor moves to pos; every queued sample is (left == right) volume*(0.5*speaker + 0.1*MIC) (0 with the beeper disabled), finite, >= 0 and <= 0.6*volume; the queue never reaches two frames' worth (invariant len <= 2*spf-1 preserved); a drained frame keeps len == cursor
+    // @bound samples/frame <= 4 so the push loop unrolls (unwind 9); real rates are covered by the c19_cursor_* arithmetic queries
+    // @outside rates >= 8000 in this step harness; AY contribution (float DSP)
+    #[kani::proof]
+    #[kani::unwind(9)]
+    fn c19_mixer_step_6() {
+        mixer_step_case(149, 1, 0);
+    }
+
+    // @harness
+    // @prop C19
+    // @tier quick
+    // @features sound
+    // @timeout 600
+    // @fn ZXMixer::process; ZXMixer::gen_sample; ZXMixer::samples_per_frame; ZXMixer::sample_count_for_frame_fraction; ZXBeeper::gen_sample; SoundSample::mul_eq; SoundSample::into_f32; ZXMixer::volume
+    // @sym sample rate from {50, 149, 200} Hz (samples/frame 1, 2, 4; literals), master volume in [0, 1.275] (= sound_volume 0..255 / 200), beeper on/off, speaker and MIC levels, case 7 of 7: sample rate 149 Hz (2 samples/frame), 3 samples queued, cursor 2 (queue above one frame); frame fraction any f64 in [0,4]
+    // @assert one mixer step: if the queue already holds a frame's worth nothing is added; otherwise exactly max(0, pos - last_pos) samples are queued and the cursor moves to pos; every queued sample is (left == right) volume*(0.5*speaker + 0.1*MIC) (0 with the beeper disabled), finite, >= 0 and <= 0.6*volume; the queue never reaches two frames' worth (invariant len <= 2*spf-1 preserved); a drained frame keeps len == cursor
+    // @bound samples/frame <= 4 so the push loop unrolls (unwind 9); real rates are covered by the c19_cursor_* arithmetic queries
+    // @outside rates >= 8000 in this step harness; AY contribution (float DSP)
+    #[kani::proof]
+    #[kani::unwind(9)]
+    fn c19_mixer_step_7() {
+        mixer_step_case(149, 3, 2);
     }
 
     fn mixer_step_case(rate: usize, n0: usize, lp: usize) {
